@@ -972,7 +972,7 @@ class DataFrameSchema(Generic[TDataObject], BaseSchema):
         new_schema = copy.deepcopy(self)
 
         keys_temp: List = (
-            list(set(keys)) if not isinstance(keys, list) else keys
+            list(dict.fromkeys(keys)) if not isinstance(keys, list) else keys
         )
 
         # ensure all specified keys are present in the columns
@@ -1129,7 +1129,10 @@ class DataFrameSchema(Generic[TDataObject], BaseSchema):
 
         # ensure no duplicates
         level_temp: Union[List[Any], List[str]] = (
-            new_schema.index.names if level is None else list(set(level))
+            new_schema.index.names
+            if level is None
+            # keep the order of the caller (a set has no stable order)
+            else list(dict.fromkeys(level))
         )
 
         # ensure all specified keys are present in the index
